@@ -132,15 +132,21 @@ pub(crate) fn cause_frame(cause: Cause) -> Option<WsMessage> {
     }
 }
 
-struct MemConn {
-    idx: usize,
-    client: Option<WebSocketStream<End>>,
-    ctl: Ctl,
-    token: Option<ShutdownToken>,
-    abort: Arc<Mutex<Option<AbortHandle>>>,
-    thread: Option<std::thread::JoinHandle<()>>,
-    wire: Vec<Got>,
-    read_done: bool,
+pub(crate) struct MemConn {
+    pub(crate) idx: usize,
+    pub(crate) client: Option<WebSocketStream<End>>,
+    pub(crate) ctl: Ctl,
+    pub(crate) token: Option<ShutdownToken>,
+    pub(crate) abort: Arc<Mutex<Option<AbortHandle>>>,
+    pub(crate) thread: Option<std::thread::JoinHandle<()>>,
+    pub(crate) wire: Vec<Got>,
+    pub(crate) read_done: bool,
+    /// rows of c15_ext.rs: the connection was taken beyond its phase by the caller (gates may have been
+    /// opened already), so `finish` does not measure the phase facts, and does not fire the cause at a
+    /// connection that is already over
+    pub(crate) ext: bool,
+    /// rows of c15_ext.rs: the exit cause is a request sent to a connection whose writer is dead
+    pub(crate) end_by_request: bool,
 }
 
 fn handshake_for(alias: &str) -> HandshakeContext {
@@ -153,18 +159,18 @@ fn handshake_for(alias: &str) -> HandshakeContext {
     HandshakeContext::from_http_request(&req)
 }
 
-struct Run<'a> {
-    w: &'a Arc<World>,
-    shared: &'a SharedWebSocketServer,
-    sc: &'a MemScenario,
-    out: &'a mut Outcome,
-    shared_token: Option<ShutdownToken>,
+pub(crate) struct Run<'a> {
+    pub(crate) w: &'a Arc<World>,
+    pub(crate) shared: &'a SharedWebSocketServer,
+    pub(crate) sc: &'a MemScenario,
+    pub(crate) out: &'a mut Outcome,
+    pub(crate) shared_token: Option<ShutdownToken>,
     /// one cancel ends every connection: all `Ending` markers are logged up front
-    shared_end: bool,
+    pub(crate) shared_end: bool,
 }
 
 impl Run<'_> {
-    fn stuck(&mut self, idx: usize, what: &str) {
+    pub(crate) fn stuck(&mut self, idx: usize, what: &str) {
         let p = &self.w.plans[idx];
         self.out.stuck.push(format!("{what} [conn {idx} {:?}/{:?} {:?}]", p.cause, p.phase, self.sc.variant));
     }
@@ -282,10 +288,10 @@ impl Run<'_> {
                 })
                 .expect("thread")
         };
-        MemConn { idx, client: Some(client), ctl, token, abort, thread: Some(thread), wire: Vec::new(), read_done: false }
+        MemConn { idx, client: Some(client), ctl, token, abort, thread: Some(thread), wire: Vec::new(), read_done: false, ext: false, end_by_request: false }
     }
 
-    async fn send(&mut self, c: &mut MemConn, m: WsMessage) {
+    pub(crate) async fn send(&mut self, c: &mut MemConn, m: WsMessage) {
         let r = match c.client.as_mut() {
             Some(cl) => cl.send(m).await.map_err(|e| e.to_string()),
             None => Err("client already dropped".into()),
@@ -319,7 +325,7 @@ impl Run<'_> {
     }
 
     /// Accept connection `idx` and bring it to its phase.
-    async fn bring(&mut self, idx: usize) -> MemConn {
+    pub(crate) async fn bring(&mut self, idx: usize) -> MemConn {
         let mut c = self.start(idx).await;
         let w = self.w.clone();
         let plan = &w.plans[idx];
@@ -393,14 +399,14 @@ impl Run<'_> {
     }
 
     /// Fire the exit cause of connection `c` and see it through to the end.
-    async fn finish(&mut self, c: &mut MemConn) {
+    pub(crate) async fn finish(&mut self, c: &mut MemConn) {
         let idx = c.idx;
         let w = self.w.clone();
         let plan = &w.plans[idx];
         let cause = plan.cause;
         // ---- measured phase facts at the moment the cause fires
         let already_over = w.has(|e| matches!(e, Ev::Served { conn, .. } if *conn == idx));
-        if !already_over {
+        if !already_over && !c.ext {
             match plan.phase {
                 Phase::Inline => {
                     if w.has(|e| matches!(e, Ev::ParkedInline { conn } if *conn == idx)) && plan.inline_gate.await_waiting(1) {
@@ -426,6 +432,12 @@ impl Run<'_> {
         }
         let panics_before = w.count(|e| matches!(e, Ev::Error { kind: "handler-panic" }));
         match cause {
+            // (rows of c15_ext.rs) the server may have torn the faulted connection down by itself
+            _ if c.ext && already_over => {}
+            // (rows of c15_ext.rs) a request whose response cannot be queued: the reader ends the connection
+            _ if c.end_by_request => {
+                self.send(c, request(80, "/probe", 80)).await;
+            }
             Cause::Close | Cause::Text | Cause::BadHdr | Cause::Trailing | Cause::OffPanic => {
                 self.send(c, super::mem::cause_frame(cause).expect("frame")).await;
             }
@@ -614,7 +626,7 @@ pub(crate) fn run(sc: &MemScenario) -> Outcome {
     out
 }
 
-fn placeholder(idx: usize) -> MemConn {
+pub(crate) fn placeholder(idx: usize) -> MemConn {
     let (_a, _b, ctl) = memstream::pair();
-    MemConn { idx, client: None, ctl, token: None, abort: Arc::new(Mutex::new(None)), thread: None, wire: Vec::new(), read_done: true }
+    MemConn { idx, client: None, ctl, token: None, abort: Arc::new(Mutex::new(None)), thread: None, wire: Vec::new(), read_done: true, ext: false, end_by_request: false }
 }
